@@ -894,6 +894,32 @@ func genName(r *Rng) []byte {
 	if n > 0 && r.Chance(1, 8) { // non-ASCII bytes are names too
 		b[r.Intn(n)] = byte(0x80 + r.Intn(0x7f))
 	}
+	if n > 0 && r.Chance(1, 3) {
+		// any printable ASCII is a name byte: '%' followed by format flags, digits and
+		// verb letters (a listing must print the name, not interpret it), backslash
+		// sequences, quotes, blanks and the rest of the punctuation.  Pieces overwrite
+		// the name in place, so its length (the padding boundaries) stays as drawn.
+		pieces := []string{"%d", "%s", "%v", "%x", "%q", "%%", "%", "%!", "%05d", "%-8x", "%+.3f", "%[1]d", "%*d",
+			"%#v", "% x", "%c", "%U", "%t", "%p", "%n", "%08.3s", "%!d(MISSING)", "%!(EXTRA",
+			"\\", "\\n", "\\t", "\\x41", "\\u0041", "\\", "\"", "'", "`", "\"\"", "$HOME", "${x}", "~", "#", "&", "*", "?",
+			"[a]", "{b}", "(c)", "<d>", "a b", " ", "  ", ";", ":", ",", "=", "+", "!", "@", "^", "|"}
+		for k := r.Range(1, 4); k > 0; k-- {
+			pc := pieces[r.Intn(len(pieces))]
+			at := r.Intn(n)
+			if r.Chance(1, 4) && len(pc) <= n {
+				at = n - len(pc) // at the very end of the name ('%' last, verb last)
+			} else if r.Chance(1, 4) {
+				at = 0
+			}
+			copy(b[at:], pc)
+		}
+		if r.Chance(1, 6) { // nothing but punctuation
+			const cs = "%\\\"'`!#$&()*+,:;<=>?@[]^{|}~ %d%s%v"
+			for i := range b {
+				b[i] = cs[r.Intn(len(cs))]
+			}
+		}
+	}
 	return noSig(b)
 }
 
